@@ -1,29 +1,78 @@
+// mcpcheck decides structural necessary conditions of the given properties by static analysis of
+// the repository's current sources.
 package main
 
 import (
+	"flag"
 	"fmt"
 	"os"
-	"time"
+	"path/filepath"
+	"strconv"
+	"strings"
 
-	"golang.org/x/tools/go/callgraph/cha"
-	"golang.org/x/tools/go/callgraph/vta"
-	"golang.org/x/tools/go/packages"
-	"golang.org/x/tools/go/ssa"
-	"golang.org/x/tools/go/ssa/ssautil"
+	"verif/checker/ir"
+	"verif/checker/report"
+	"verif/checker/rules"
 )
 
 func main() {
-	t0 := time.Now()
-	cfg := &packages.Config{Mode: packages.LoadAllSyntax, Dir: "/repo"}
-	pkgs, err := packages.Load(cfg, ".", "./internal/...")
-	if err != nil {
-		fmt.Println(err)
+	prop := flag.String("prop", "", "property id (C01..C20)")
+	tier := flag.String("tier", "quick", "quick | thorough | explain")
+	repo := flag.String("repo", "/repo", "repository to analyse")
+	verif := flag.String("verif", "/verif", "verification directory (evidence, known findings)")
+	flag.Parse()
+
+	rule, ok := rules.Registry[*prop]
+	if !ok {
+		fmt.Printf("CHECK-BROKEN: unknown property %q (have %s)\n", *prop, strings.Join(rules.Props(), " "))
 		os.Exit(2)
 	}
-	fmt.Println(len(pkgs), time.Since(t0))
-	prog, _ := ssautil.AllPackages(pkgs, ssa.InstantiateGenerics)
-	prog.Build()
-	fmt.Println("ssa", time.Since(t0))
-	cg := vta.CallGraph(ssautil.AllFunctions(prog), cha.CallGraph(prog))
-	fmt.Println(len(cg.Nodes), time.Since(t0))
+	seed := int64(0)
+	if s := os.Getenv("VERIF_SEED"); s != "" {
+		if v, err := strconv.ParseInt(s, 10, 64); err == nil {
+			seed = v
+		}
+	}
+	evTier := *tier
+	if evTier != "thorough" {
+		evTier = "quick"
+	}
+	abs, _ := filepath.Abs(*repo)
+	code := run(*prop, rule, evTier, *tier, abs, *verif, seed)
+	os.Exit(code)
+}
+
+func run(prop string, rule rules.Rule, evTier, mode, repo, verif string, seed int64) (code int) {
+	rep := report.New(prop, evTier, seed)
+	defer func() {
+		if r := recover(); r != nil {
+			fmt.Printf("CHECK-BROKEN: property=%s analysis panic: %v\n", prop, r)
+			code = 2
+		}
+	}()
+	p, err := ir.Load(ir.Options{Dir: repo, WithCHA: evTier == "thorough"})
+	if err != nil {
+		fmt.Printf("CHECK-BROKEN: property=%s cannot load %s: %v\n", prop, repo, err)
+		return 2
+	}
+	known, err := report.LoadKnown(filepath.Join(verif, "known_findings.json"))
+	if err != nil {
+		fmt.Printf("CHECK-BROKEN: property=%s %v\n", prop, err)
+		return 2
+	}
+	c := &rules.Ctx{P: p, R: rep, G: p.VTA, Tier: evTier}
+	rule(c)
+	rep.Extra["packages"] = len(p.Pkgs)
+	rep.Extra["library_functions_analysed"] = len(p.LibFns)
+	rep.Extra["program_functions"] = p.NumAll
+	rep.Extra["call_graph"] = map[string]int{"nodes": len(p.VTA.Nodes)}
+	if evTier == "thorough" {
+		rules.Thorough(c, repo, verif)
+	}
+	if mode == "explain" {
+		for _, o := range rep.Obls {
+			fmt.Printf("%-9s %-22s %-60s %s  %s\n", o.Status, o.Rule, o.Construct, o.Pos, o.Detail)
+		}
+	}
+	return rep.Finish(verif, known)
 }
